@@ -390,6 +390,10 @@ def r_ccg2lambda_vocab(repo, rep, R='R15.4'):
 
 
 def check(repo, rep, tier):
+    from ..lints import r_import_time_language
+    r_import_time_language(repo, rep, 'R15.4', repo.py_files('depccg/printer') + [RD])
+    from ..lints import r_no_reordering
+    r_no_reordering(repo, rep, 'R15.1', [(RD, 'read_xml'), (RD, 'read_jigg_xml'), (PX, 'xml_of'), (JX, 'to_jigg_xml')], 'sentences and n-best trees')
     rep.rule('R15.1', 'C&C XML: tags / attributes written vs read')
     rep.rule('R15.2', 'Jigg XML: attributes written vs read by read_jigg_xml and ccg2lambda; id templates')
     rep.rule('R15.3', 'span ids unique by construction; child lists and root from returned ids')
